@@ -5,3 +5,4 @@ CONSTANTS
   FullDepth = 2
   Stride = 3
   Stride2 = 4
+  HistLen = 6
